@@ -16,7 +16,9 @@ All paths of main (config `cmdline`, crate `jsonlogic`):
       the first argument and of the data text, in this order;
   K3  data source: the data text is the second argument unless it is absent
       (defaulted to the constant "-") or equals "-"; exactly then it is read to
-      the end from stdin; the stdin read happens on that edge only;
+      the end from stdin; the stdin read happens on that edge only (stated on the sources of the data text — read
+      through `?`, merges and Option/Result combinators with their closures in case normal form — and on edge cut
+      sets of main; a read that sits in a helper is decided on the view with the helper inlined);
   K4  exit status: every failure edge either returns the residual (`?`, main
       returning Result<(), _>) or ends in a handler that never returns and exits
       with a constant status that is non-zero modulo 256 (the OS keeps 8 bits); no
